@@ -924,6 +924,15 @@ def v_hist_counts_decrease(rng, doc):
                 if a != bs[0] and float(gg[bs[bs.index(a) - 1]].value) > int(vb) + 1:
                     continue
                 out.append(render(d))
+                # the same with another sample of the group (_count, _sum, _created) standing between the two buckets
+                others = [i for i, s in enumerate(gg) if s.suffix != '_bucket']
+                if others and b == a + 1:
+                    d2 = _clone(d)
+                    g2 = d2.families[fi].groups[gi]
+                    o = others[0]
+                    x = g2.pop(o)
+                    g2.insert(b if o > b else b - 1, x)
+                    out.append(render(d2))
     return out
 
 
@@ -946,9 +955,23 @@ def v_hist_count_mismatch(rng, doc):
         fi, gi, si = p
         g = doc.families[fi].groups[gi]
         inf = float(g[_buckets(g)[-1]].value)
-        for tok in {str(int(inf) + 1), '0' if inf != 0 else '1', str(int(inf) + 1) + '.0'}:
-            if float(tok) != inf:
-                out.append(_edit_sample(doc, p, lambda f, g, s, tok=tok: setattr(s, 'value', tok)))
+        toks = sorted(t for t in {str(int(inf) + 1), '0' if inf != 0 else '1', str(int(inf) + 1) + '.0'} if float(t) != inf)
+        for tok in toks:
+            out.append(_edit_sample(doc, p, lambda f, g, s, tok=tok: setattr(s, 'value', tok)))
+        # the same with _count standing elsewhere in its group: in front of the buckets, between two of them, last
+        bs = _buckets(g)
+        places = {0, len(g) - 1}
+        if len(bs) >= 2:
+            places.add(bs[0] + 1 if si > bs[0] else bs[0])
+        for at in sorted(places):
+            if at == si:
+                continue
+            d = _clone(doc)
+            gg = d.families[fi].groups[gi]
+            c = gg.pop(si)
+            c.value = toks[0]
+            gg.insert(at, c)
+            out.append(render(d))
     return out
 
 
@@ -1220,7 +1243,47 @@ def v_hist_le_nan(rng, doc):
     return out
 
 
-KNOWN_RULES = {'hist_bucket_repeated': v_hist_bucket_repeated, 'hist_le_nan': v_hist_le_nan}
+def v_hist_later_exposure(rng, doc):
+    """a histogram group exposed a second time at a later timestamp, where the second exposure breaks a group rule: its
+    _count differs from its +Inf bucket, or a finite bucket follows the +Inf bucket with a larger count.  The unchanged
+    parser resets group_timestamp_samples only when the group changes, not when its timestamp advances, so every
+    series of the second exposure but the first is dropped as a duplicate before _check_histogram runs."""
+    out = []
+    for fi, f in enumerate(doc.families):
+        if not _is_hist(f):
+            continue
+        for gi, g in enumerate(f.groups):
+            bs = _buckets(g)
+            if not bs or any(s.raw is not None for s in g):
+                continue
+            cnt = [i for i, s in enumerate(g) if s.suffix in ('_count', '_gcount')]
+            inf = copy.deepcopy(g[bs[-1]])
+            inf.exemplar = None
+            later = []
+            if cnt:
+                c = copy.deepcopy(g[cnt[0]])
+                c.value = str(int(float(inf.value)) + 1)
+                later.append([inf, c])
+            if len(bs) >= 2:
+                low = copy.deepcopy(g[bs[0]])
+                low.exemplar = None
+                low.value = str(int(float(inf.value)) + 3)
+                later.append([inf, low])
+            for again in later:
+                d = _clone(doc)
+                gg = d.families[fi].groups[gi]
+                for s in gg:
+                    s.ts = '1'
+                again = copy.deepcopy(again)
+                for s in again:
+                    s.ts = '2'
+                d.families[fi].groups[gi] = gg + again
+                out.append(render(d))
+    return out
+
+
+KNOWN_RULES = {'hist_bucket_repeated': v_hist_bucket_repeated, 'hist_le_nan': v_hist_le_nan,
+               'hist_later_exposure': v_hist_later_exposure}
 
 
 def all_violations(rng, doc, per_rule=None):
